@@ -120,7 +120,7 @@ static int classify(const Got &g, int &ch, int &val) {
     return -1;
 }
 
-struct Cfg { double mult = 1.0; int driver = 0; int play_req = 1024; int track_off = -1, track_solo = -1, chan_off = -1; double step = 0.001; bool loop = false; int loop_count = 0; };
+struct Cfg { double mult = 1.0; int driver = 0; int play_req = 1024; int track_off = -1, track_solo = -1, chan_off = -1; double step = 0.001; bool loop = false; int loop_count = 0; int prior = 0; /* another song loaded, masked and partly played on the same handle before this one */ };
 
 static std::string song_str(const Song &s) {
     std::string r = "fmt" + std::to_string(s.format) + " div" + std::to_string(s.division) + (s.running ? " running-status" : "");
@@ -151,6 +151,18 @@ static bool load_song(pl::Instance &I, const Bytes &file, const Cfg &c, en::Case
     opn2_setNumChips(d, 2);
     opn2_openBankData(d, g_bank.data(), (long)g_bank.size());
     opn2_setRawEventHook(d, raw_hook, NULL);
+    if(c.prior) {   // non-initial handle: a three-track song was loaded before, some of its tracks switched off / chosen as solo, part of it played. Track options belong to the song they were set for.
+        gm::Track t0, t1, t2; t0.tempo(0, 400000).ev(0, {0x90, 50, 100}).ev(48, {0x80, 50, 0}).eot(0); t1.ev(0, {0x91, 52, 100}).ev(48, {0x81, 52, 0}).eot(0); t2.ev(0, {0x92, 54, 100}).ev(48, {0x82, 54, 0}).eot(0);
+        Bytes other = gm::smf(1, 96, {t0.d, t1.d, t2.d});
+        if(opn2_openData(d, other.data(), (unsigned long)other.size()) != 0) { o.fail(g_prop + "/well-formed-file-rejected", std::string("opn2_openData failed on the earlier song: ") + opn2_errorInfo(d)); return false; }
+        if(c.prior == 1) { opn2_setTrackOptions(d, 0, OPNMIDI_TrackOption_Off); opn2_setTrackOptions(d, 1, OPNMIDI_TrackOption_Off); }
+        else if(c.prior == 2) opn2_setTrackOptions(d, 1, OPNMIDI_TrackOption_Solo);
+        else if(c.prior == 3) { opn2_setTrackOptions(d, 1, OPNMIDI_TrackOption_Off); opn2_setTrackOptions(d, 0, OPNMIDI_TrackOption_Solo); }
+        else if(c.prior == 4) { opn2_setTrackOptions(d, 2, OPNMIDI_TrackOption_Off); opn2_setTempo(d, 2.0); }
+        for(int j = 0; j < 10; j++) opn2_tickEvents(d, 0.01, 1e-6);
+        if(c.prior == 4) opn2_setTempo(d, 1.0);
+        g_got.clear();
+    }
     if(opn2_openData(d, file.data(), (unsigned long)file.size()) != 0) { o.fail(g_prop + "/well-formed-file-rejected", std::string("opn2_openData failed: ") + opn2_errorInfo(d)); return false; }
     if(c.loop) { opn2_setLoopEnabled(d, 1); opn2_setLoopCount(d, c.loop_count); }
     if(c.mult != 1.0) opn2_setTempo(d, c.mult);
@@ -168,7 +180,7 @@ static void check_c07(const Song &s, const Cfg &c, en::CaseOut &o) {
     if(!load_song(I, file, c, o)) return;
     OPN2_MIDIPlayer *d = I.dev;
     char b[400];
-    std::string ctx = " [" + song_str(s) + "; multiplier " + std::to_string(c.mult) + " driver " + std::to_string(c.driver) + (c.driver == 2 ? " req " + std::to_string(c.play_req) : "") + (c.track_off >= 0 ? " track " + std::to_string(c.track_off) + " off" : "") + (c.track_solo >= 0 ? " solo " + std::to_string(c.track_solo) : "") + (c.chan_off >= 0 ? " channel " + std::to_string(c.chan_off) + " off" : "") + "]";
+    std::string ctx = " [" + song_str(s) + "; multiplier " + std::to_string(c.mult) + " driver " + std::to_string(c.driver) + (c.driver == 2 ? " req " + std::to_string(c.play_req) : "") + (c.track_off >= 0 ? " track " + std::to_string(c.track_off) + " off" : "") + (c.track_solo >= 0 ? " solo " + std::to_string(c.track_solo) : "") + (c.chan_off >= 0 ? " channel " + std::to_string(c.chan_off) + " off" : "") + (c.prior ? "; second song of the handle, earlier song with track options variant " + std::to_string(c.prior) : "") + "]";
     double tl = opn2_totalTimeLength(d);
     if(fabs(tl - length) > 1e-6 + 1e-9 * length) { snprintf(b, sizeof b, "opn2_totalTimeLength = %.9f, latest event time + 1 s = %.9f", tl, length); o.fail("C07/length", b + ctx); return; }
     I.tap.log.clear();
@@ -306,6 +318,10 @@ int main(int argc, char **argv) {
           F.run = [per](uint64_t i, en::CaseOut &o) { uint64_t f = i % (per * per * 2); int mask = (int)(i / (per * per * 2)); Song s = songN(f, 2, 2); Cfg c; if(mask == 1) c.track_off = 0; else if(mask == 2) c.track_off = 1; else if(mask == 3) c.track_solo = 0; else if(mask == 4) c.track_solo = 1; else if(mask == 5) c.chan_off = 1;
             else if(mask >= 6) { c.track_off = (mask - 6) & 1; c.track_solo = ((mask - 6) >> 1) & 1; }   // off and solo together, on the same track or on different ones
             if(i % 40009 == 3) o.sample = song_str(s) + " mask " + std::to_string(mask); check_c07(s, c, o); };
+          fams.push_back(F); }
+        { int n2 = 2; uint64_t per = seqs_upto(15, n2);
+          en::Family F; F.name = "two_tracks_second_song"; F.count = per * per * 2 * 4; F.chunk = 256; F.budget_s = 30; F.describe = "the same two-track files loaded as the SECOND song of a handle: a three-track song was loaded first, with {tracks 0+1 off, solo 1, track 1 off + solo 0, track 2 off at tempo x2}, and partly played; the new song has no options set and must play completely";
+          F.run = [per](uint64_t i, en::CaseOut &o) { uint64_t f = i % (per * per * 2); Song s = songN(f, 2, 2); Cfg c; c.prior = 1 + (int)(i / (per * per * 2)); if(i % 40009 == 3) o.sample = song_str(s) + " prior " + std::to_string(c.prior); check_c07(s, c, o); };
           fams.push_back(F); }
         { uint64_t per = seqs_upto(15, 1);
           en::Family F; F.name = "three_tracks"; F.count = per * per * per * 3 * 3; F.chunk = 128; F.budget_s = 30; F.describe = "every format-1 file with 3 tracks of up to 1 event each x lone End-of-Track position x driver {self-fed, 1 ms, play 1024}";
